@@ -1197,6 +1197,15 @@ class System:
                     privacy = priv
                     break
 
+        # The setter and the deleter of a property are documented next to it, as
+        # functions named '<property>.setter' and '<property>.deleter': they are
+        # parts of the property, so they are never more visible than it is.
+        propname, _, accessor = ob.name.rpartition('.')
+        if propname and accessor in ('setter', 'deleter') and ob.parent is not None:
+            prop = ob.parent.contents.get(propname)
+            if prop is not None and prop is not ob:
+                privacy = min(privacy, self.privacyClass(prop), key=lambda p: p.value)
+
         # Store in cache
         self._privacyClassCache[ob_fullName] = privacy
         return privacy
